@@ -4,12 +4,13 @@ import (
 	"encoding/json"
 	"sort"
 	"strings"
+	"sync"
 	"unicode/utf8"
 
 	"verif/mc/ev"
 )
 
-func allGroups(r *ev.Run) []group {
+func allGroups(r *sink) []group {
 	// every QueryRange/QueryInstant call parses the query with a freshly built participle parser (~1.3 ms), so
 	// the row bound is what the budget allows: quick = all structures up to 4 rows on every endpoint and up to
 	// 5 rows on the streams encoder; thorough = up to 5 rows everywhere and 6 on the streams encoder.
@@ -17,11 +18,11 @@ func allGroups(r *ev.Run) []group {
 	if r.Thorough() {
 		maxRows, maxRowsStreams = 5, 6
 	}
-	r.Extra["max_rows"] = map[string]int{"range_streams": maxRowsStreams, "other_endpoints": maxRows}
+	r.maxRows = map[string]int{"range_streams": maxRowsStreams, "other_endpoints": maxRows}
 	var gs []group
 	for _, ep := range []string{"range_streams", "range_matrix", "instant_streams", "instant_vector"} {
 		ep := ep
-		gs = append(gs, group{"qr_struct_" + ep, func(r *ev.Run, g *gstat) {
+		gs = append(gs, group{"qr_struct_" + ep, func(r *sink, g *gstat) {
 			var cases []*QRCase
 			n := maxRows
 			if ep == "range_streams" {
@@ -30,27 +31,27 @@ func allGroups(r *ev.Run) []group {
 			structCases(ep, n, func(c *QRCase) { cases = append(cases, c) })
 			runQRCases(r, g, cases)
 		}})
-		gs = append(gs, group{"qr_content_" + ep, func(r *ev.Run, g *gstat) {
+		gs = append(gs, group{"qr_content_" + ep, func(r *sink, g *gstat) {
 			var cases []*QRCase
 			contentCases(ep, func(c *QRCase) { cases = append(cases, c) })
 			runQRCases(r, g, cases)
 		}})
 	}
-	gs = append(gs, group{"qr_struct_tail", func(r *ev.Run, g *gstat) {
+	gs = append(gs, group{"qr_struct_tail", func(r *sink, g *gstat) {
 		var cases []*QRCase
 		structCases("tail", maxRows, func(c *QRCase) { cases = append(cases, c) })
 		runTailCases(r, g, cases)
 	}})
-	gs = append(gs, group{"qr_content_tail", func(r *ev.Run, g *gstat) {
+	gs = append(gs, group{"qr_content_tail", func(r *sink, g *gstat) {
 		var cases []*QRCase
 		contentCases("tail", func(c *QRCase) { cases = append(cases, c) })
 		runTailCases(r, g, cases)
 	}})
 	gs = append(gs,
-		group{"db_pipeline", func(r *ev.Run, g *gstat) { runDBCases(r, g, dbCases(r.Thorough())) }},
-		group{"labels_values_series", func(r *ev.Run, g *gstat) { runLabelCases(r, g, labelCases(r.Thorough())) }},
-		group{"tempo", func(r *ev.Run, g *gstat) { runTempoCases(r, g, tempoCases(r.Thorough())) }},
-		group{"prom_write_response", func(r *ev.Run, g *gstat) { runPromCases(r, g, promCases()) }},
+		group{"db_pipeline", func(r *sink, g *gstat) { runDBCases(r, g, dbCases(r.Thorough())) }},
+		group{"labels_values_series", func(r *sink, g *gstat) { runLabelCases(r, g, labelCases(r.Thorough())) }},
+		group{"tempo", func(r *sink, g *gstat) { runTempoCases(r, g, tempoCases(r.Thorough())) }},
+		group{"prom_write_response", func(r *sink, g *gstat) { runPromCases(r, g, promCases()) }},
 	)
 	// cheap groups first: a deadline then cuts the big structure enumerations, not whole endpoints
 	sort.SliceStable(gs, func(i, j int) bool { return rank(gs[i].name) < rank(gs[j].name) })
@@ -68,22 +69,17 @@ func rank(name string) int {
 }
 
 func qrKey(c *QRCase) string {
-	b, _ := json.Marshal(struct {
-		E string
-		S []SeriesDef
-		B []int
-		F bool
-		N int
-	}{c.Endpoint, c.Series, c.Batches, c.EOF, len(c.Rows)})
+	b, _ := json.Marshal(c)
 	return string(b)
 }
 
-func judgeQR(r *ev.Run, g *gstat, c *QRCase, body []byte) {
+func judgeQR(r *sink, g *gstat, c *QRCase, body []byte) {
 	g.add(body)
+	debugBody(body)
 	if !utf8.Valid(body) {
-		g.rawU8++
+		g.RawU8++
 	}
-	r.Distinct(qrKey(c))
+	r.Distinct_(qrKey(c))
 	if b := checkQR(c, body); b != nil {
 		r.Outcome(b.Class)
 		violate(r, "qr", c, b)
@@ -92,11 +88,11 @@ func judgeQR(r *ev.Run, g *gstat, c *QRCase, body []byte) {
 	}
 }
 
-func runQRCases(r *ev.Run, g *gstat, cases []*QRCase) {
+func runQRCases(r *sink, g *gstat, cases []*QRCase) {
 	if len(cases) > 0 {
 		r.Sample(cases[len(cases)/2])
 	}
-	parallel(cases, func(c *QRCase) {
+	parallel(r, cases, func(c *QRCase) {
 		body, err := runQR(c)
 		if err != nil {
 			ev.Fatal("%s: service returned an error for a scripted case: %v", c.Endpoint, err)
@@ -105,9 +101,15 @@ func runQRCases(r *ev.Run, g *gstat, cases []*QRCase) {
 	})
 }
 
-func runTailCases(r *ev.Run, g *gstat, cases []*QRCase) {
-	// 32 concurrent Tail sessions, each serving its slice of the cases one per tick
-	const sessions = 32
+func runTailCases(r *sink, g *gstat, all []*QRCase) {
+	// this shard's cases, served by 4 concurrent Tail sessions, one case per tick of each session
+	var cases []*QRCase
+	for i, c := range all {
+		if i%r.nshards == r.shard {
+			cases = append(cases, c)
+		}
+	}
+	const sessions = 4
 	parts := make([]*tailSession, sessions)
 	for i := range parts {
 		parts[i] = &tailSession{}
@@ -115,17 +117,28 @@ func runTailCases(r *ev.Run, g *gstat, cases []*QRCase) {
 	for i, c := range cases {
 		parts[i%sessions].cases = append(parts[i%sessions].cases, c)
 	}
-	parallel(parts, func(t *tailSession) {
+	var mu sync.Mutex
+	var wg sync.WaitGroup
+	for _, t := range parts {
 		if len(t.cases) == 0 {
-			return
+			continue
 		}
-		if err := t.run(func(c *QRCase, body []byte) { judgeQR(r, g, c, body) }); err != nil {
-			ev.Fatal("tail: %v", err)
-		}
-	})
+		wg.Add(1)
+		go func(t *tailSession) {
+			defer wg.Done()
+			if err := t.run(func(c *QRCase, body []byte) {
+				mu.Lock()
+				judgeQR(r, g, c, body)
+				mu.Unlock()
+			}); err != nil {
+				ev.Fatal("tail: %v", err)
+			}
+		}(t)
+	}
+	wg.Wait()
 }
 
-func replayCase(r *ev.Run, rp Replay) bool {
+func replayCase(r *sink, rp Replay) bool {
 	switch rp.Group {
 	case "qr":
 		var c QRCase
